@@ -46,7 +46,38 @@ Definition enum_leaf (p : schema) : Prop :=
   exists c vs, p = Sch c [] None false None [] [] /\ c_types c = [SString] /\ c_ref c = None /\ c_enum c = Some (map JStr vs) /\ vs <> [] /\
                c_default c = None /\ c_format c = None /\ c_min_len c = 0 /\ c_max_len c = 0 /\ c_pattern c = None.
 
-Definition leaf (p : schema) : Prop := str_leaf p \/ int_leaf p \/ bool_leaf p \/ num_leaf p \/ arr_leaf p \/ enum_leaf p \/ map_leaf p \/ int_enum_leaf p.
+(* number enums (C08): {"type": "number", "enum": [numbers]} with no other keyword *)
+Definition num_enum_leaf (p : schema) : Prop :=
+  exists c ns, p = Sch c [] None false None [] [] /\ c_types c = [SNumber] /\ c_ref c = None /\ c_enum c = Some (map JNum ns) /\ ns <> [] /\
+               c_default c = None /\ c_format c = None /\ has_bound_kw (c_mult c) (c_bounds c) = false.
+
+Definition leaf (p : schema) : Prop := str_leaf p \/ int_leaf p \/ bool_leaf p \/ num_leaf p \/ arr_leaf p \/ enum_leaf p \/ map_leaf p \/ int_enum_leaf p \/ num_enum_leaf p.
+
+Lemma rmap_ev_nums (ns : list num) : rmap (fun v => match ev_of_json v with Some e => Done e | None => GUnmod end) (map JNum ns) = Done (map (fun n => EVFloat (nq n)) ns).
+Proof. induction ns as [|v r IH]; [reflexivity|]. cbn [map rmap ev_of_json rbind]. rewrite IH. reflexivity. Qed.
+
+Lemma gen_num_enum_leaf f self sc p ty bp : num_enum_leaf p -> gen (S f) MInline self false p sc = Done (ty, bp) ->
+  exists ns, c_enum (s_con p) = Some (map JNum ns) /\ ty = TEnum sc TFloat false (map (fun n => EVFloat (nq n)) ns) /\ bp = c_bounds (s_con p).
+Proof.
+  intros (c & ns & -> & Ht & Hr & He & Hne & _ & Hf & _) H. exists ns. cbn [s_con]. split; [exact He|].
+  cbn [Gen.gen s_con] in H. rewrite He in H.
+  destruct f as [|f]; [discriminate|]. cbn [Gen.gen s_con] in H. rewrite He in H.
+  destruct f as [|f]; [discriminate|]. cbn [Gen.gen s_con] in H. rewrite He, Ht in H.
+  destruct ns as [|v0 vr]; [contradiction Hne; reflexivity|]. cbn [map] in H.
+  unfold primitive in H. cbn [rbind wrap_ptr] in H.
+  change (JNum v0 :: map JNum vr) with (map JNum (v0 :: vr)) in H. rewrite rmap_ev_nums in H. cbn [sty_eqb] in H. inversion H. split; reflexivity.
+Qed.
+
+Lemma existsb_json_numvals n ns : existsb (json_eqb (JNum n)) (map JNum ns) = existsb (enum_eq TFloat (GF (nq n))) (map (fun m => EVFloat (nq m)) ns).
+Proof. induction ns as [|v r IH]; [reflexivity|]. cbn [map existsb]. rewrite IH. reflexivity. Qed.
+
+Lemma valid_num_enum_leaf fv p x ns : num_enum_leaf p -> c_enum (s_con p) = Some (map JNum ns) ->
+  valid (S fv) p x = match x with JNum n => existsb (json_eqb x) (map JNum ns) | _ => false end.
+Proof.
+  intros (c & ns0 & -> & Ht & Hr & He0 & _ & _ & Hf & Hb) He. cbn [s_con] in He. cbn [Valid.valid s_con s_all_of s_any_of]. rewrite Hr, Ht, He. cbn [type_ok existsb forallb].
+  destruct x; cbn [type_matches orb andb]; try reflexivity.
+  rewrite (no_bound_kw _ _ (nq n) Hb). rewrite ?andb_true_r, ?orb_false_r. reflexivity.
+Qed.
 
 Lemma rmap_ev_strs (vs : list str) : rmap (fun v => match ev_of_json v with Some e => Done e | None => GUnmod end) (map JStr vs) = Done (map EVStr vs).
 Proof. induction vs as [|v r IH]; [reflexivity|]. cbn [map rmap ev_of_json rbind]. rewrite IH. reflexivity. Qed.
@@ -412,9 +443,40 @@ Proof.
     unfold field_ok. cbn [fst snd f_json f_ty f_name field_validators]. rewrite Hl. reflexivity.
 Qed.
 
+Lemma dec_tenum_float fd sc es x : dec (S (S fd)) (TEnum sc TFloat false es) x =
+  obind (dec (S fd) TFloat x) (fun v => if existsb (enum_eq TFloat v) es then Ok v else Err).
+Proof. reflexivity. Qed.
+Lemma dec_tfloat fd y : dec (S fd) TFloat y = match y with JNum n => Ok (GF (nq n)) | JNull => Ok (GF 0) | _ => Err end.
+Proof. reflexivity. Qed.
+
+Lemma num_enum_field fd fv c self fname k p ns kv sc :
+  num_enum_leaf p -> c_enum (s_con p) = Some (map JNum ns) -> fname <> [] ->
+  match lookup k kv with
+  | Some x => x <> JNull ->
+      field_ok (dec (S (S (S fd)))) zero (default_val env dv_fuel) kv (pair_of (make_field defs c self fname k p (TEnum sc TFloat false (map (fun n => EVFloat (nq n)) ns)) (c_bounds (s_con p)))) = valid (S fv) p x
+  | None => mem k (c_required c) = false ->
+      field_ok (dec (S (S (S fd)))) zero (default_val env dv_fuel) kv (pair_of (make_field defs c self fname k p (TEnum sc TFloat false (map (fun n => EVFloat (nq n)) ns)) (c_bounds (s_con p)))) = true
+  end.
+Proof.
+  intros Hleaf He Hn. destruct (lookup k kv) as [x|] eqn:Hl.
+  - intros Hnull. rewrite (valid_num_enum_leaf fv p x ns Hleaf He). destruct Hleaf as (pc & ns0 & -> & Ht & Hr & He0 & _ & Hd & _). unfold make_field, pair_of. cbn [s_con]. rewrite Hd.
+    destruct (mem k (c_required c)).
+    + unfold field_ok. cbn [fst snd f_json f_ty f_name field_validators]. rewrite Hl, dec_tenum_float, dec_tfloat.
+      destruct x; try contradiction; cbn [obind]; try reflexivity.
+      rewrite existsb_json_numvals. destruct (existsb (enum_eq TFloat (GF (nq n))) _); reflexivity.
+    + cbn [nillable_ty]. unfold field_ok. cbn [fst snd f_json f_ty f_name field_validators]. rewrite Hl.
+      assert (Hp : dec (S (S (S fd))) (TPtr (TEnum sc TFloat false (map (fun n => EVFloat (nq n)) ns))) x =
+                   match x with JNull => Ok GNil | _ => obind (dec (S (S fd)) (TEnum sc TFloat false (map (fun n => EVFloat (nq n)) ns)) x) (fun v => Ok (GP v)) end) by reflexivity.
+      rewrite Hp, dec_tenum_float, dec_tfloat.
+      destruct x; try contradiction; cbn [obind]; try reflexivity.
+      rewrite existsb_json_numvals. destruct (existsb (enum_eq TFloat (GF (nq n))) _); reflexivity.
+  - intros Hm. destruct Hleaf as (pc & ns0 & -> & Ht & Hr & He0 & _ & Hd & _). unfold make_field, pair_of. cbn [s_con]. rewrite Hd, Hm. cbn [nillable_ty].
+    unfold field_ok. cbn [fst snd f_json f_ty f_name field_validators]. rewrite Hl. reflexivity.
+Qed.
+
 Lemma leaf_default_none p : leaf p -> c_default (s_con p) = None.
 Proof.
-  intros [Hl|[Hl|[Hl|[Hl|[Hl|[Hl|[Hl|Hl]]]]]]].
+  intros [Hl|[Hl|[Hl|[Hl|[Hl|[Hl|[Hl|[Hl|Hl]]]]]]]].
   - destruct Hl as (c & -> & _ & _ & _ & Hd & _); exact Hd.
   - destruct Hl as (c & m & -> & _ & _ & _ & Hd & _); exact Hd.
   - destruct Hl as (c & -> & _ & _ & _ & Hd); exact Hd.
@@ -423,6 +485,7 @@ Proof.
   - destruct Hl as (c & vs & -> & _ & _ & _ & _ & Hd & _); exact Hd.
   - destruct Hl as (ik & c & a & -> & _ & _ & _ & Hd & _); exact Hd.
   - exact (int_enum_default_none p Hl).
+  - destruct Hl as (c & ns & -> & _ & _ & _ & _ & Hd & _); exact Hd.
 Qed.
 
 Lemma ref_default_none p x : ref_prop p x -> c_default (s_con p) = None.
@@ -461,7 +524,7 @@ Proof.
   - intros fname k p ty bp Hin Hgen.
     assert (Hinp : In (k, p) (s_props s)) by (unfold prop_names in Hin; apply in_combine_r in Hin; rewrite sort_props_In in Hin; exact Hin).
     pose proof (Hne _ _ Hin) as Hfn.
-    destruct (Hprops k p Hinp) as [[Hl|[Hl|[Hl|[Hl|[Hl|[Hl|[Hl|Hl]]]]]]]|[Hoth _]].
+    destruct (Hprops k p Hinp) as [[Hl|[Hl|[Hl|[Hl|[Hl|[Hl|[Hl|[Hl|Hl]]]]]]]]|[Hoth _]].
     + rewrite (gen_str_leaf idf cf defs f self _ p Hl) in Hgen. inversion Hgen; subst ty bp.
       destruct (lookup k kv) as [x|] eqn:El.
       * destruct (Hval k p x Hinp El) as [Hnn [Hstr _]]. apply str_field_present; [exact Hl|exact Hfn|exact El|split; [exact Hnn|exact (Hstr Hl)]].
@@ -499,6 +562,11 @@ Proof.
       pose proof (int_enum_field defs fmt_ok env sdefs fd (S fv) (s_con s) self fname k p l tbl kv (scope ++ fname) Hl He Ht Hfn) as Hb.
       destruct (lookup k kv) as [x|] eqn:El.
       * destruct (Hval k p x Hinp El) as (_ & _ & _ & _ & _ & Hiv). exact (Hb (Hiv Hl)).
+      * exact Hb.
+    + destruct (gen_num_enum_leaf f self _ p ty bp Hl Hgen) as (ns & Hev & -> & ->).
+      pose proof (num_enum_field fd (S fv) (s_con s) self fname k p ns kv (scope ++ fname) Hl Hev Hfn) as Hb.
+      destruct (lookup k kv) as [x|] eqn:El.
+      * destruct (Hval k p x Hinp El) as [Hnn _]. exact (Hb Hnn).
       * exact Hb.
     + exact (Hother fname k p ty bp Hin Hinp Hoth Hfn Hgen).
 Qed.
@@ -553,7 +621,7 @@ Proof. destruct n; cbn [sobj]; intros (Pp & Pty & Pa & _); (split; [exact Pp|spl
 
 Lemma leaf_not_object p : leaf p -> plain_object p -> c_types (s_con p) = [SObject] -> False.
 Proof.
-  intros Hl (_ & _ & _ & Hprops & _) Pty. destruct Hl as [Hl|[Hl|[Hl|[Hl|[Hl|[Hl|[Hl|Hl]]]]]]].
+  intros Hl (_ & _ & _ & Hprops & _) Pty. destruct Hl as [Hl|[Hl|[Hl|[Hl|[Hl|[Hl|[Hl|[Hl|Hl]]]]]]]].
   - destruct Hl as (c0 & -> & Ht & _). cbn [s_con] in Pty; rewrite Ht in Pty; discriminate.
   - destruct Hl as (c0 & m0 & -> & Ht & _). cbn [s_con] in Pty; rewrite Ht in Pty; discriminate.
   - destruct Hl as (c0 & -> & Ht & _). cbn [s_con] in Pty; rewrite Ht in Pty; discriminate.
@@ -562,14 +630,15 @@ Proof.
   - destruct Hl as (c0 & vs0 & -> & Ht & _). cbn [s_con] in Pty; rewrite Ht in Pty; discriminate.
   - destruct Hl as (ik0 & c0 & a0 & -> & _). apply Hprops. reflexivity.
   - destruct Hl as (c0 & l0 & -> & Ht & _). cbn [s_con] in Pty; rewrite Ht in Pty; discriminate.
+  - destruct Hl as (c0 & ns0 & -> & Ht & _). cbn [s_con] in Pty; rewrite Ht in Pty; discriminate.
 Qed.
 
 Lemma leaf_not_ref p x : leaf p -> ref_prop p x -> False.
 Proof.
   intros Hl (c & E & Hr & _). subst p.
-  destruct Hl as [Hl|[Hl|[Hl|[Hl|[Hl|[Hl|[Hl|Hl]]]]]]];
+  destruct Hl as [Hl|[Hl|[Hl|[Hl|[Hl|[Hl|[Hl|[Hl|Hl]]]]]]]];
     [destruct Hl as (c0 & E & _ & Hr0 & _)|destruct Hl as (c0 & m0 & E & _ & Hr0 & _)|destruct Hl as (c0 & E & _ & Hr0 & _)|destruct Hl as (c0 & E & _ & Hr0 & _)|destruct Hl as (ik0 & c0 & it0 & E & _ & Hr0 & _)
-    |destruct Hl as (c0 & vs0 & E & _ & Hr0 & _)|destruct Hl as (ik0 & c0 & a0 & E & _ & Hr0 & _)|destruct Hl as (c0 & l0 & E & _ & Hr0 & _)];
+    |destruct Hl as (c0 & vs0 & E & _ & Hr0 & _)|destruct Hl as (ik0 & c0 & a0 & E & _ & Hr0 & _)|destruct Hl as (c0 & l0 & E & _ & Hr0 & _)|destruct Hl as (c0 & ns0 & E & _ & Hr0 & _)];
     inversion E; subst; congruence.
 Qed.
 
@@ -973,7 +1042,7 @@ Proof.
   - intros k [H|[]]. subst. left; reflexivity.
   - vm_compute. repeat constructor. intros [].
   - intros fname kp H. vm_compute in H. destruct H as [H|[]]; inversion H; subst; discriminate.
-  - intros k p [H|[]]; inversion H; subst. left. right. right. right. right. right. right. right. exact (proj1 int_enum_generated_inhabited).
+  - intros k p [H|[]]; inversion H; subst. left. right. right. right. right. right. right. right. left. exact (proj1 int_enum_generated_inhabited).
 Qed.
 
 Lemma ex_ie_outer_sobj : sobj (fun s => s) (mkCfg false false) [] [] [] 1 ex_ie_outer.
@@ -1024,4 +1093,46 @@ Proof.
     split; [intros (c & m & E1 & _ & _ & He & _); inversion E1; subst c; discriminate|].
     split; [intros (ik & c & it & E1 & _); inversion E1|]. split; [intros (ik & c & a & E1 & _); inversion E1|].
     split; [intros _; exact Hi|exact I].
+Qed.
+
+
+(* ---------- non-vacuity of the number-enum leaf: {r: number enum [0.5, 1, 2.25] (required)} ---------- *)
+Definition ex_ratio : schema :=
+  Sch (mkC [SNumber] None (Some (map JNum [mkNum (Qmake 1 2) false; mkNum (Qmake 1 1) true; mkNum (Qmake 9 4) false])) [] 0 0 0 0 None None (mkBounds None None None None) None None) [] None false None [] [].
+Definition ex_ne_obj : schema :=
+  Sch (mkC [SObject] None None [[114]%N] 0 0 0 0 None None (mkBounds None None None None) None None) [([114]%N, ex_ratio)] None false None [] [].
+Definition ex_ne_docs : list (list (str * json)) :=
+  [[([114]%N, JQ (Qmake 1 2))]; [([114]%N, JInt 1)]; [([114]%N, JInt 2)]; [([114]%N, JStr [120]%N)]; []].
+
+Lemma ex_ratio_leaf : num_enum_leaf ex_ratio.
+Proof. eexists. eexists. repeat split; try reflexivity; discriminate. Qed.
+
+Lemma ex_ne_sobj : sobj (fun s => s) (mkCfg false false) [] [] [] 0 ex_ne_obj.
+Proof.
+  cbn [sobj]. repeat split; try reflexivity; try discriminate.
+  - repeat constructor. intros [].
+  - intros k [H|[]]. subst. left; reflexivity.
+  - vm_compute. repeat constructor. intros [].
+  - intros fname kp H. vm_compute in H. destruct H as [H|[]]; inversion H; subst; discriminate.
+  - intros k p [H|[]]; inversion H; subst. left. do 8 right. exact ex_ratio_leaf.
+Qed.
+
+Example num_enum_inhabited :
+  exists t b, Gen.gen (fun s => s) (mkCfg false false) [] (fuelG 0 2) MDeclared None false ex_ne_obj [82]%N = Done (t, b) /\
+    (forall kv, In kv ex_ne_docs ->
+       is_ok (Exec.dec (fun _ _ => true) [] (fuelD 0 0) t (JObj kv)) = Valid.valid (fun _ _ => true) [] (fuelV 0 0) ex_ne_obj (JObj kv)) /\
+    map (fun kv => Valid.valid (fun _ _ => true) [] (fuelV 0 0) ex_ne_obj (JObj kv)) ex_ne_docs = [true; true; false; false; false].
+Proof.
+  eexists. eexists. split; [vm_compute; reflexivity|].
+  assert (Hgen : Gen.gen (fun s => s) (mkCfg false false) [] (fuelG 0 2) MDeclared None false ex_ne_obj [82]%N = Done _) by (vm_compute; reflexivity).
+  split; [|vm_compute; reflexivity].
+  intros kv Hkv.
+  eapply (nested_object_exact (fun s => s) (mkCfg false false) [] (fun _ _ => true) [] [] eq_refl eq_refl 0 2 0 0 None false ex_ne_obj [82]%N _ _ kv); [discriminate|exact ex_ne_sobj| |exact Hgen].
+  cbn [dok]. split; [destruct Hkv as [<-|[<-|[<-|[<-|[<-|[]]]]]]; repeat constructor; cbn; intuition discriminate|].
+  intros k p x Hin Hl. destruct Hin as [Hin|[]]. inversion Hin; subst k p.
+  split; [destruct Hkv as [<-|[<-|[<-|[<-|[<-|[]]]]]]; vm_compute in Hl; inversion Hl; discriminate|].
+  split; [intros (c & E & Ht & _); inversion E; subst c; discriminate|].
+  split; [intros (c & m & E & Ht & _); inversion E; subst c; discriminate|].
+  split; [intros (ik & c & it & E & _); inversion E|]. split; [intros (ik & c & a & E & _); inversion E|].
+  split; [intros (c & l & E & Ht & _); inversion E; subst c; discriminate|exact I].
 Qed.
